@@ -126,8 +126,9 @@ impl Obs {
         }
         self.nontrivial.extend(o.nontrivial);
         self.nontrivial_overflow += o.nontrivial_overflow;
-        for s in o.samples {
-            if self.samples.len() < 24 {
+        // a few from every merged observer (one per phase and thread); the evidence keeps 24 spread over all of them
+        for s in o.samples.into_iter().take(3) {
+            if self.samples.len() < 2000 && !self.samples.contains(&s) {
                 self.samples.push(s);
             }
         }
@@ -604,12 +605,20 @@ pub fn run_check<P: Prop>(prop: &P, tier: Tier, seed: u64) -> i32 {
         }
     }
 
+    let spread_samples: Vec<Value> = {
+        let n = total.samples.len();
+        if n <= 24 {
+            total.samples.clone()
+        } else {
+            (0..24).map(|i| total.samples[i * n / 24].clone()).collect()
+        }
+    };
     let mut coverage = json!({
         "evaluations": total.evaluations,
         "distinct_nontrivial": distinct,
         "distinct_nontrivial_is_lower_bound": total.nontrivial_overflow > 0,
         "rule": prop.rule(),
-        "samples": total.samples,
+        "samples": spread_samples,
         "cases_generated": total.cases,
         "jobs_run": jobs,
         "labels": total.labels,
